@@ -192,3 +192,27 @@ def sibling_agreement_on_tails(ctx: Ctx) -> None:
             ok = bool(guards) and all(any(g.only_if(g.node_of(c).id, t.id, unparse(t.ast) != "self.tail_processed") for t in guards) for c in tail_apps)
             ctx.ob(f"{s.name}.bind appends the tail only where mixed content can hold it", ok, at=b, construct=f"{s.name} tail guard", msg="tails appended for non-mixed parents (or twice)")
     ctx.floor("node classes that bind objects", n, 5)
+
+
+@rule("C11.R7")
+def single_wildcard_container(ctx: Ctx) -> None:
+    """A second element bound to a single wildcard wraps the first in a nameless container unless the first already IS that nameless container."""
+    fi = ctx.repo.func(f"{PAR}.nodes.element:ElementNode.bind_wild_var")
+    g = build_cfg(fi.node)
+    wraps = [g.node_of(st) for st, tgt, v in stores(fi.node) if isinstance(tgt, ast.Subscript) and isinstance(v, ast.Call) and any(k.arg == "children" for k in v.keywords)]
+    inst = [t for t in g.nodes if t.kind == "test" and isinstance(t.ast, ast.Call) and unparse(t.ast.func) == "isinstance" and unparse(t.ast.args[0]) == "previous"]
+    named = [t for t in g.nodes if t.kind == "test" and unparse(t.ast) == "previous.qname"]
+    ok = len(wraps) == 1 and wraps[0] is not None and len(inst) == 1 and len(named) == 1
+    if ok:
+        w = wraps[0].id
+        ok = w in [m for m, lab in g.succ[inst[0].id] if lab == "false"] and w in [m for m, lab in g.succ[named[0].id] if lab == "true"] and g.only_if(named[0].id, inst[0].id, True)
+    ctx.ob("bind_wild_var wraps the previous value when it is not a generic element OR is a *named* generic element", ok, at=fi, construct="container decision",
+           msg="a named generic element bound first is mistaken for the nameless container: later siblings are appended to ITS children (<a/><b/> becomes <a><b/></a>)")
+    app = [n for n in g.stmts() if any(A(unparse(c)) == A("params[var.name].children.append(value)") for c in node_calls(n))]
+    ctx.ob("the new value is appended to the container's children after the (possible) wrap", len(app) == 1 and bool(wraps) and wraps[0] is not None and app[0].id in g.reachable([wraps[0].id]), at=fi, construct="append after wrap", msg="value not appended")
+
+
+from .c08 import in_scope_map_reaches_resolvers  # noqa: E402
+from ..core import share  # noqa: E402
+
+share("C11", "C11.R8", in_scope_map_reaches_resolvers)
